@@ -217,13 +217,13 @@ func genPoolCase(t *rapid.T) PoolCase {
 func checkC20(c PoolCase, o *Obs) error {
 	pool := newInstPool()
 	type cstate struct {
-		turn chan struct{}
-		done chan struct{}
-		fin  bool
+		turn     chan struct{}
+		done     chan struct{}
+		fin      bool
 		finished bool // set under pool.mu when the program has ended (concurrent leg)
-		tw   *WTrace
-		tr   *xport.ScriptConn
-		err  error
+		tw       *WTrace
+		tr       *xport.ScriptConn
+		err      error
 	}
 	n := len(c.Conns)
 	states := make([]*cstate, n)
